@@ -120,7 +120,8 @@ RULE = ('case = one history. Direct: 1-3 messages x 4-12 operations from {write,
         'mode sequential | overlapping greenlets (one per message, seeded yields), optional forced '
         'uuid collision with an existing id, write/retry timestamps all equal | ascending | descending per message '
         '(all in the past, so (timestamp, id) order of the restart backlog varies), 10%: one envelope > 2 default '
-        'AIO chunks; 40% of the sequential ones continue, from a drawn operation on, through a storage object whose '
+        'AIO chunks; directory layout drawn from separate (4/8) | tmp_dir=meta_dir | tmp_dir=env_dir | all one '
+        'directory | env_dir=meta_dir with its own tmp_dir; 40% of the sequential ones continue, from a drawn operation on, through a storage object whose '
         'tmp_dir lies on ANOTHER filesystem (/dev/shm or another writable one with a different st_dev; skipped with a '
         'counter when none exists). Queue-driven: 1-3 messages enqueued (seeded delays) into a real started Queue whose relay '
         'double follows a per-message script of 0-4 failing rounds (message 0 always two marking rounds) and an end '
@@ -182,7 +183,7 @@ REQUIRED_HITS_BASE = ['recovery-judged', 'queue-attempts-judged', 'real-kill-com
                  'overlapping-ops-crash-state-judged', 'half-written-state-judged', 'half-removed-state-judged',
                  'leftover-tmp-state-judged', 'fresh-queue-retry-judged', 'async-sigkill-judged',
                  'async-sigkill-inside-operation-judged']
-REQUIRED_HITS = list(REQUIRED_HITS_BASE)      # completed below, once the second-filesystem probe is defined
+REQUIRED_HITS = list(REQUIRED_HITS_BASE) + ['shared-directory-recovery-judged']      # completed below, once the second-filesystem probe is defined
 SHARDS = {'quick': 16, 'thorough': 16}
 BUDGET = {'quick': 60, 'thorough': 700}
 
@@ -319,7 +320,9 @@ def make_case(rnd, h, tier):
             'akills': [[rnd.random(), rnd.choice([0, 0.1, 0.2, 0.35, 0.5, 0.7, 1.0])] for _ in range(NAKILLS[tier])],
             # configuration stratum: from this operation on the storage object is one whose tmp_dir lies on
             # ANOTHER filesystem (a restart with a changed configuration)
-            'xfs_from': rnd.randint(2, max(2, len(ops) - 2)) if (mode == 'seq' and rnd.random() < 0.4) else None}
+            'xfs_from': rnd.randint(2, max(2, len(ops) - 2)) if (mode == 'seq' and rnd.random() < 0.4) else None,
+            # directory layout: roles may share a directory (a way to keep the rename on one file system)
+            'layout': rnd.choice(LAYOUTS + ('separate',) * 3)}
 
 
 def make_queue_case(rnd, h, tier, msgs, chunk):
@@ -357,7 +360,8 @@ def make_queue_case(rnd, h, tier, msgs, chunk):
         enq.append(rnd.choice([0, 0, 1, 3, 8, 20]))
     return {'h': h, 'mode': 'queue', 'chunk': chunk, 'msgs': msgs, 'ops': [], 'script': script,
             'giveup': giveup, 'enq': enq, 'collide': False, 'kills': [],
-            'akills': [[rnd.random(), rnd.choice([0, 0.1, 0.2, 0.35, 0.5, 0.7, 1.0])] for _ in range(NAKILLS[tier])]}
+            'akills': [[rnd.random(), rnd.choice([0, 0.1, 0.2, 0.35, 0.5, 0.7, 1.0])] for _ in range(NAKILLS[tier])],
+            'layout': rnd.choice(LAYOUTS + ('separate',) * 3)}
 
 
 def gen_cases(tier, seed, shard, nshards):
@@ -430,10 +434,31 @@ def tree_summary(tree):
     return out
 
 
+LAYOUTS = ('separate', 'tmp=meta', 'tmp=env', 'all-one', 'env=meta')
+
+
+def layout_paths(root, layout):
+    """(env_dir, meta_dir, tmp_dir) of a directory layout; shared roles use one directory (the captured tree
+    keeps its three names, an unused one simply stays empty)."""
+    e, m, t = (os.path.join(root, d) for d in DIRS)
+    return {'tmp=meta': (e, m, m), 'tmp=env': (e, m, e), 'all-one': (e, e, e),
+            'env=meta': (e, e, t)}.get(layout, (e, m, t))
+
+
+def view(tree):
+    """Files by ROLE (suffix) whatever directory they lie in: *.env, *.meta, anything else = temp file."""
+    v = {'env': {}, 'meta': {}, 'tmp': {}}
+    for d in DIRS:
+        for fn, data in tree[d].items():
+            v['env' if fn.endswith('.env') else 'meta' if fn.endswith('.meta') else 'tmp'][fn] = data
+    return v
+
+
 def trees_equal(a, b, by_name=True):
     """names + bytes for env/meta (contents only when the ids of the two runs are not the same ones);
     tmp files (random names) by content multiset."""
     diffs = []
+    a, b = view(a), view(b)
     for d in ('env', 'meta'):
         same = (a[d] == b[d]) if by_name else (sorted(a[d].values()) == sorted(b[d].values()))
         if not same:
@@ -963,7 +988,7 @@ def run_queue_history(case, store, envs, model):
 def run_history(case, root, tracer, model, problems, light=False):
     """Execute the history against the real DiskStorage. Used by the parent (capturing) and by
     the killed children (counting / journalling)."""
-    inner = D.DiskStorage(os.path.join(root, 'env'), os.path.join(root, 'meta'), os.path.join(root, 'tmp'))
+    inner = D.DiskStorage(*layout_paths(root, case.get('layout')))
     fu = FakeUuid('h%d' % case['h'], case.get('collide'))
     store = TracedStore(inner, tracer, model, case, problems, fu)
     envs = [build_envelope(m) for m in case['msgs']]
@@ -995,7 +1020,7 @@ def run_history(case, root, tracer, model, problems, light=False):
             xdir = case.get('xfs_dir') if case.get('xfs_from') is not None else None
             for seq, (m, kind, arg, y) in enumerate(case['ops']):
                 if xdir and seq == case['xfs_from'] and os.path.isdir(xdir):
-                    store.inner = D.DiskStorage(os.path.join(root, 'env'), os.path.join(root, 'meta'), xdir)
+                    store.inner = D.DiskStorage(*(layout_paths(root, case.get('layout'))[:2] + (xdir,)))
                     store.xfs_active = True
                     store.xfs_seq = store.seq
                 do_op(seq, m, kind, arg, y)
@@ -1146,6 +1171,8 @@ def required(st):
 
 
 def disk_class(tree, id_):
+    tree = view(tree)
+
     def one(d, ext):
         data = tree[d].get(id_ + ext)
         if data is None:
@@ -1159,6 +1186,7 @@ def disk_class(tree, id_):
 
 
 def tree_class(tree):
+    tree = view(tree)
     a = set()
     envs = set(fn[:-4] for fn in tree['env'] if fn.endswith('.env'))
     metas = set(fn[:-5] for fn in tree['meta'] if fn.endswith('.meta'))
@@ -1339,7 +1367,8 @@ def recover(tree, expect, case, R, where, all_configs=True):
     base = os.path.join(where, 'rec')
     root = os.path.join(base, 't')
     write_tree(tree, root)
-    paths = [os.path.join(root, d) for d in DIRS]
+    paths = list(layout_paths(root, case.get('layout')))
+    vtree = view(tree)
     need = [m for m, st in enumerate(expect) if required(st)]
     contents = {m: flat(build_envelope(msgs[m])) for m in need}
     try:
@@ -1378,12 +1407,15 @@ def recover(tree, expect, case, R, where, all_configs=True):
                 R.hit('half-written-state-judged')       # other live messages must still load
             if 'meta-without-env' in tc:
                 R.hit('half-removed-state-judged')
-            if tree['tmp']:
+            if vtree['tmp']:
                 R.hit('leftover-tmp-state-judged')
+            if case.get('layout', 'separate') != 'separate':
+                R.hit('shared-directory-recovery-judged')
+                R.count('shared-directory-recoveries[%s]' % case['layout'])
         # observation only (the statement does not forbid it by itself; its harmful consequences -- other
         # messages not loaded / not attempted, torn content handed to the relay -- are judged below)
         R.count('load-listed-ids-that-are-no-envelope-file(tmp leftovers, orphan meta)',
-                sum(1 for i in ids if (i + '.env') not in tree['env']))
+                sum(1 for i in ids if (i + '.env') not in vtree['env']))
         for m in need:
             st = expect[m]
             atts, tss, rcs = allowed(msgs[m], st)
@@ -1414,7 +1446,7 @@ def recover(tree, expect, case, R, where, all_configs=True):
             else:
                 croot = os.path.join(base, 'q-' + name.replace('=', '').replace(',', '-'))
                 write_tree(tree, croot)
-            res = queue_phase([os.path.join(croot, d) for d in DIRS], expect, msgs, need, contents,
+            res = queue_phase(list(layout_paths(croot, case.get('layout'))), expect, msgs, need, contents,
                               kw, deliver, late, R)
             if res is None:
                 continue
@@ -1457,11 +1489,11 @@ def report(R, case, s, found, origin):
         if m is None and clause != 'load-raises':
             kinds = sorted(set(st['inflight'][0] for st in expect if st['inflight']))
             situation = ('during-' + '+'.join(kinds)) if kinds else 'no-op-in-flight'
-            dc = tree_class(tree) + ('+leftover-tmp' if tree['tmp'] else '')
+            dc = tree_class(tree) + ('+leftover-tmp' if view(tree)['tmp'] else '')
         elif m is None:
             # load() raised: the culprits are the listed ids (env present) whose meta is not loadable
             kinds, classes = set(), set()
-            for fn in tree['env']:
+            for fn in view(tree)['env']:
                 if not fn.endswith('.env'):
                     continue
                 cls = disk_class(tree, fn[:-4]).split(',')[1]
@@ -1552,6 +1584,7 @@ def _run_case(case, R, where):
     for k_, v_ in tracer.notes.items():
         R.count(k_, v_)
     R.count('histories-' + case['mode'])
+    R.count('histories-layout[%s]' % case.get('layout', 'separate'))
     for k_, v_ in fu.store.notes.items():
         R.count(k_, v_)
     if len(case['msgs'][0]['body']) > 30000:
@@ -1630,7 +1663,7 @@ def _run_case(case, R, where):
             continue
         seen.add(key)
         # the extra Queue configurations depend on env+meta only (tmp is never read back)
-        key2 = (tree_hash(dict(s['tree'], tmp={})), key[1])
+        key2 = (tree_hash(dict(view(s['tree']), tmp={})), key[1])      # files by role: temp files never count
         extra = key2 not in seen2
         seen2.add(key2)
         if extra:
